@@ -406,7 +406,23 @@ class _Generator(Generator):
                 ''
             ]
 
-        encode_lines = [
+        if type_.additions_index_to_member is not None:
+            # The extension bit. Only the root alternatives are
+            # supported.
+            extension_encode_lines = ['encoder_append_bool(encoder_p, false);']
+            extension_decode_lines = [
+                'if (decoder_read_bool(decoder_p)) {',
+                '    decoder_abort(decoder_p, EBADCHOICE);',
+                '',
+                '    return;',
+                '}',
+                ''
+            ]
+        else:
+            extension_encode_lines = []
+            extension_decode_lines = []
+
+        encode_lines = extension_encode_lines + [
             '',
             'switch (src_p->{}) {{'.format(choice),
             ''
@@ -418,7 +434,7 @@ class _Generator(Generator):
             ''
         ]
 
-        decode_lines = [
+        decode_lines = extension_decode_lines + [
             '{} = ({})decoder_read_non_negative_binary_integer(decoder_p, {});'.format(
                 unique_choice,
                 type_name,
@@ -464,10 +480,26 @@ class _Generator(Generator):
         else:
             encode_lines = ['{} = src_p->{};'.format(unique_value, location)]
 
+        if type_.additions_index_to_data is not None:
+            # The extension bit. Only the root values are supported.
+            encode_lines.append('encoder_append_bool(encoder_p, false);')
+
         encode_lines.append('encoder_append_non_negative_binary_integer(encoder_p, '
                             '{}, {});'.format(unique_value, type_.root_number_of_bits))
 
-        decode_lines = [
+        decode_lines = []
+
+        if type_.additions_index_to_data is not None:
+            decode_lines += [
+                'if (decoder_read_bool(decoder_p)) {',
+                '    decoder_abort(decoder_p, EBADENUM);',
+                '',
+                '    return;',
+                '}',
+                ''
+            ]
+
+        decode_lines += [
             '{} = ({})decoder_read_non_negative_binary_integer('
             'decoder_p, {});'.format(unique_value,
                                      type_name,
